@@ -141,6 +141,11 @@ class ExprMixin:
 
     def ev_Attribute(self, e, st, exc):
         sn = static_name(e)
+        if sn is not None and sn in self.contract.bind and sn.split(".")[0] not in st.env:
+            ty = parse_type(self.contract.bind[sn])
+            if ty.kind == "cls":
+                return [(st, self.cls_sv(sn.split(".")[-1]))]
+            return [(st, self.global_value(sn, st))]
         if sn is not None and sn.split(".")[0] not in st.env and sn.split(".")[0] not in self.contract.bind \
                 and not (sn.split(".")[0] == "result" and self.result_sv is not None):
             last = sn.split(".")[-1]
@@ -650,7 +655,7 @@ def _transparent(e):
         return True
     if isinstance(e, ast.UnaryOp) and isinstance(e.op, ast.Not):
         return True
-    if isinstance(e, ast.Call) and isinstance(e.func, ast.Name) and e.func.id in ("implies", "all", "any"):
+    if isinstance(e, ast.Call) and isinstance(e.func, ast.Name) and e.func.id in ("implies", "all", "any", "dict_subset"):
         return True
     if isinstance(e, ast.Call) and isinstance(e.func, ast.Name) and C.SPECS.get(e.func.id, {}).get("macro"):
         return True
